@@ -17,6 +17,55 @@ def _field(ref, suffix):
 
 def run(ck):
     prog = ck.prog
+    _walk_sum = {}
+
+    def helper_walks(g_, depth=0):
+        """[(kind callee, parameter index of the core walked)] for a free helper that walks a core's continuations"""
+        if g_.id in _walk_sum:
+            return _walk_sum[g_.id]
+        _walk_sum[g_.id] = []
+        out_ = []
+        pn = [p_["name"] for p_ in g_.params]
+        for e_ in g_.events("call"):
+            if e_.get("callee") in (REQ_RESOLVE, REQ_REJECT) and e_.get("args"):
+                root_ = (e_["args"][0].get("t") or "").split("->")[0].split(".")[0]
+                out_.append((e_["callee"], pn.index(root_) if root_ in pn else None))
+            elif depth < 2 and (e_.get("callee") or "").startswith(P) and not e_.get("virt"):
+                for h_ in prog.resolve_call(e_):
+                    if h_.blocks and h_.id != g_.id and not h_.cls:
+                        for kind_, pi_ in helper_walks(h_, depth + 1):
+                            a_ = e_["args"][pi_] if pi_ is not None and pi_ < len(e_.get("args", [])) else {}
+                            r2 = (a_.get("t") or "").split("->")[0].split(".")[0]
+                            out_.append((kind_, pn.index(r2) if r2 in pn else None))
+        _walk_sum[g_.id] = out_
+        return out_
+
+    def walk_calls(evs):
+        """the walks over a core's continuations among evs: Request::resolve/reject(core) calls, and calls of free helpers that do the
+        walk (reported as a walk of the same kind over the core argument handed to the helper)"""
+        from ..facts import Event
+        out_ = []
+        for e in evs:
+            if e["k"] != "call":
+                continue
+            if e.get("callee") in (REQ_RESOLVE, REQ_REJECT):
+                out_.append(e)
+                continue
+            c_ = e.get("callee") or ""
+            if c_.startswith(P) and not e.get("virt") and c_ not in (REQ_RESOLVE, REQ_REJECT):
+                for h_ in prog.resolve_call(e):
+                    if not h_.blocks or h_.cls:
+                        continue
+                    for kind_, pi_ in helper_walks(h_):
+                        a_ = e["args"][pi_] if pi_ is not None and pi_ < len(e.get("args", [])) else {}
+                        syn = Event(dict(e))
+                        syn["callee"] = kind_
+                        syn["args"] = [a_]
+                        syn["via"] = c_
+                        syn.func, syn.block, syn.idx = e.func, e.block, e.idx
+                        out_.append(syn)
+        return out_
+
     ck.rule("C11-R1", "B dominance + D who-may-call",
             "Continuable<T>::doResolve/doReject are invoked only from Continuable<T>::resolve/reject, where the call is dominated by the "
             "resolveCount_/rejectCount_ >= 1 bail-out and by the increment of that counter", 8)
@@ -87,8 +136,8 @@ def run(ck):
     thens = prog.find(A + "Promise::then", 4)
     for f in thens:
         pushes = [e for e in f.calls(lambda e: e.base_callee() == "std::vector::push_back" and _field(e.get("recv"), "Core::requests"))]
-        res = [e for e in f.calls(lambda e: e.get("callee") == REQ_RESOLVE)]
-        rej = [e for e in f.calls(lambda e: e.get("callee") == REQ_REJECT)]
+        res = [e for e in walk_calls(f.events()) if e.get("callee") == REQ_RESOLVE]
+        rej = [e for e in walk_calls(f.events()) if e.get("callee") == REQ_REJECT]
         ful_edges, rejd_edges = set(), set()
         for b in f.blocks.values():
             t = b.term
@@ -127,9 +176,6 @@ def run(ck):
               "push_back x1 on every path; resolve only under isFulfilled, reject only under isRejected")
 
     # ---------------- R3 ----------------
-    def walk_calls(evs):
-        return [e for e in evs if e["k"] == "call" and e.get("callee") in (REQ_RESOLVE, REQ_REJECT)]
-
     # (a) every doReject override
     for f in prog.find(P + "impl::Continuation::doReject", 6):
         w = walk_calls(f.events())
@@ -238,12 +284,14 @@ def run(ck):
                   "under data->mtx=%s; bail-out on '%s' dominates=%s; flag set on the path=%s" % (a_ok, flagname, b_ok, c_ok))
             # R5
             if kind == "all" and not is_rej:
-                tests = [b for b in f.blocks.values() if b.term and b.term.get("k") == "if" and b.term.get("cmp") == "=="
-                         and _field(b.term.get("lhs"), "Data::resolved") and _field(b.term.get("rhs"), "Data::total")]
-                t_ok = any(b.id in dom.get(e.block, ()) and b.id != e.block and any(x is e for x in cfg.events_from_block(f, b.succs[0]))
-                           and not any(x is e for x in cfg.events_from_block(f, b.succs[1])) for b in tests)
+                done_edges = lib.relation_edges(f, lambda r_: _field(r_, "Data::resolved"), lambda r_: _field(r_, "Data::total"), ("==",))
+                t_ok = any(cfg.edge_dominates(f, bid_, k_, e) for bid_, k_ in done_edges)
                 incs = [x for x in f.events("incdec") if _field(x.get("operand"), "Data::resolved")]
-                i_ok = len(incs) == 1 and all(cfg.ev_dominates(dom, incs[0], b.elems[-1]) if b.elems else False for b in tests) and bool(tests)
+                # the single increment precedes the comparison (the comparison event, or the branch when it compares in place)
+                cmp_evs = [x for x in f.events("cmp") if x.get("op") == "==" and (_field(x.get("lhs"), "Data::resolved") or _field(x.get("rhs"), "Data::resolved"))]
+                i_ok = len(incs) == 1 and bool(done_edges) and \
+                    all(cfg.ev_dominates(dom, incs[0], c_) for c_ in cmp_evs) and \
+                    all(cfg.ev_dominates(dom, incs[0], f.blocks[bid_].elems[-1]) for bid_, _k in done_edges if f.blocks[bid_].elems)
                 # increment not inside a loop
                 i_ok = i_ok and not any(x is incs[0] for x in cfg.events_after(f, incs[0]))
                 ck.ob("C11-R5", name, t_ok and i_ok, e.loc, f, "resolved==total test dominates resolve=%s; counter incremented once before the test=%s" % (t_ok, i_ok))
